@@ -32,7 +32,9 @@ TRUSTED = [
     'C20: posixpath.join / dirname as modelled (correspondence runs the real ones)',
     'C20 store stream: the stores are written by the library itself (KeychainSqlite3.initialize, TpmFile.save_key) into a plainly '
     'named directory once per run and copied from there; one identity row is inserted with sqlite3 directly; no system-wide '
-    'client.conf exists on the machine (else cases without a user file are not judged); HOME is always set in this stream',
+    'client.conf exists on the machine (else cases without a user file are not judged); HOME is always set in this stream; '
+    'the directory a path string denotes is what os.path.realpath of the harness process says before the library runs (the '
+    'scratch file system supports symbolic links; a layout it cannot hold is skipped)',
 ]
 RULE = ('three streams: (conf) product of presence/absence and values of NDN_CLIENT_TRANSPORT/PIB/TPM x 0..3 existing '
         'candidate files (comments, blank lines, missing keys, upper-case keys, = and : delimiters, rarely a repeated key; '
@@ -69,6 +71,17 @@ RULE = ('three streams: (conf) product of presence/absence and values of NDN_CLI
         'default_keychain opens (no exception for an existing well-formed store), that the keychain lists exactly the identity '
         'put into the store the statement names, that its key store sees exactly the key put into the named key store, that a '
         'key saved through it lands inside that directory, and that opening changed no file outside the named store. '
+        '(store, file-system shape) the same observation over layouts with SYMBOLIC LINKS and non-normalised spellings: HOME, '
+        '~/.ndn, client.conf itself (a link to a file kept elsewhere), the working directory, every pib / tpm location and the '
+        "store's own files may be reached through links - to directories and to files, absolute and relative targets, chains, "
+        "dangling and self-referring ones, a link as the store itself - with '.', '..', 'dir/..', doubled and trailing slashes "
+        "before and after the links (a random walk towards the real directory with detours; one detour in two ends BESIDE the "
+        "way so that '..' follows a link), and in one case in three the working directory changes between read_client_conf, "
+        'default_keychain and the first use of the store. Which directory a configured string denotes is measured with the '
+        'operating system (realpath) before the library runs; look-alike stores stand where a textual clean-up of the spelling '
+        "(normpath / abspath), a '..' taken against the link instead of its target, the logical working directory or the "
+        "real place of a linked client.conf would lead. With a changed working directory only absolute names and names "
+        'relative to the configuration file are judged. '
         'Behind VERIF_C20_DOLLAR=1 (not in the default stream: fails on the unchanged library, see the report) HOME itself '
         'holds the text $HOME / ${HOME} / $NDN_CLIENT_PIB. '
         'non-trivial = store: a keychain was opened and listed an identity; conf: a result was returned and at least one of environment/file contributed; face: a face was '
@@ -878,6 +891,308 @@ def _targeted_store():
                            dirs=dflt + [[fh, 'pib', 'p1'], [fh + '/ndnsec-key-file', 'tpm', 't1']])
 
 
+# ---- the FILE-SYSTEM SHAPE of the locations (same op 'store'): symbolic links and non-normalised spellings.
+# A configured string and the directory it denotes are two things as soon as the path holds a symbolic link: the operating
+# system resolves 'link/..' to the parent of the link's TARGET, a textual clean-up (normpath / abspath / relpath / pathlib
+# arithmetic) to the directory holding the link.  Here every name of the layout - HOME, ~/.ndn, client.conf, the working
+# directory, each pib / tpm location, the store's own files - may be reached through links (to directories and to files,
+# relative and absolute targets, chains, dangling) with '.', '..', doubled and trailing slashes before and after them, and
+# the working directory may change between read_client_conf, default_keychain and the first use of the store.  The case
+# only SPELLS paths; which directory a string denotes is measured from the operating system (realpath) by the harness
+# before the library runs.
+class _Fs:
+    """the layout under construction: real directories (case['dirs']), links in creation order, fresh names"""
+
+    def __init__(self, rng):
+        self.rng, self.dirs, self.links, self.n = rng, [], [], 0
+        self.labels = {'pib': 0, 'tpm': 0}
+
+    def fresh(self, stem=None):
+        self.n += 1
+        return (stem or self.rng.choice(['lnk', 'cur', 'latest', 'L', 'to', 'ref', '.l'])) + str(self.n)
+
+    def place(self, path, kind, via=None):
+        """a real directory at the (link-free, normalised) path; kind 'pib' / 'tpm': with a store of its own label in it"""
+        have = [d for d in self.dirs if d[0] == path]
+        if path == T or kind == 'dir' and have or have and have[0][1] != 'dir':
+            return
+        if kind == 'dir':
+            self.dirs.append([path, 'dir', ''])
+            return
+        if have:                                    # (a plain directory made on the way becomes the store)
+            self.dirs.remove(have[0])
+        self.dirs.append([path, kind, '%s%d' % (kind[0], self.labels[kind])] + (via or []))
+        self.labels[kind] += 1
+
+    def target(self, frm, to):
+        """text of a link that lives in the real directory `frm` and leads to the real path `to`: absolute or relative"""
+        if self.rng.random() < 0.5:
+            return to
+        return posixpath.relpath('/' + to, '/' + frm)
+
+    def link(self, frm, name, to, chain_ok=True):
+        """frm/name -> to; one in four through a second link kept elsewhere (a chain)"""
+        if chain_ok and self.rng.random() < 0.25:
+            mid = T + '/.links'
+            self.place(mid, 'dir')
+            m = self.fresh('m')
+            self.links.append([mid + '/' + m, self.target(mid, to)])
+            to = mid + '/' + m
+        self.links.append([frm + '/' + name, self.target(frm, to)])
+
+
+def _fs_resolve(links, path):
+    """where the layout of the CASE puts the T-based absolute `path` (used by the generator only, to place look-alike
+    stores where a textual reading of a spelling ends up; the oracle measures with the operating system)"""
+    table = {l: t for l, t in links}
+    cur, todo, hops = T, path[len(T):].split('/'), 0
+    while todo:
+        c = todo.pop(0)
+        if c in ('', '.'):
+            continue
+        if c == '..':
+            cur = posixpath.dirname(cur) if cur != T else T
+            continue
+        nxt = cur + '/' + c
+        if nxt in table:
+            hops += 1
+            if hops > 40:
+                return None
+            t = table[nxt]
+            if t.startswith(T):
+                cur, todo = T, t[len(T):].split('/') + todo
+            else:
+                todo = t.split('/') + todo
+            continue
+        cur = nxt
+    return cur
+
+
+def _spell(rng, fs, start, goal, plink=0.35, tail=True):
+    """a path string the operating system resolves to the real directory `goal`: absolute (start None; from the scratch
+    root) or relative to the real directory `start`.  Walks towards the goal and on the way takes detours through fresh
+    symbolic links (to the goal itself, to a directory above it, to a directory BESIDE the way so that '..' follows the
+    link, anywhere), '.', doubled slashes and 'child/..' through real directories"""
+    parts, cur, nl = [], (T if start is None else start), 0
+    for step in range(60):
+        if cur == goal and parts and (step >= 12 or rng.random() < 0.6):
+            break
+        r = rng.random()
+        if step < 12 and nl < 2 and r < plink:
+            up = [goal]
+            while up[-1] != T:
+                up.append(posixpath.dirname(up[-1]))
+            q = rng.random()
+            if q < 0.2:
+                dest = goal
+            elif q < 0.4:
+                dest = rng.choice(up)
+            elif q < 0.85 or not fs.dirs:
+                dest = rng.choice(up[1:] or up) + '/' + fs.fresh(rng.choice(['vault', 'sub', 'v', 'opt']))
+                if rng.random() < 0.5:
+                    dest += '/' + rng.choice(PLAIN_PIECES)
+            else:
+                dest = rng.choice(fs.dirs)[0]
+            fs.place(dest, 'dir')
+            name = fs.fresh()
+            fs.link(cur, name, dest)
+            parts.append(name)
+            cur, nl = dest, nl + 1
+        elif step < 12 and r < plink + 0.2:
+            d = rng.choice(['.', '', 'x/..'])
+            if d == 'x/..':
+                child = fs.fresh('d')
+                fs.place(cur + '/' + child, 'dir')
+                parts += [child, '..']
+            elif d == '.' or parts or start is None:
+                parts.append(d)
+        elif cur == goal:
+            continue
+        elif goal.startswith(cur + '/'):
+            c = goal[len(cur) + 1:].split('/')[0]
+            parts.append(c)
+            cur += '/' + c
+        else:
+            parts.append('..')
+            cur = posixpath.dirname(cur)
+    assert cur == goal
+    if tail and rng.random() < 0.1:
+        parts.append(rng.choice(['', '.']))
+    while not tail and parts[-1] == '':      # (HOME: '~' drops trailing slashes of it)
+        parts.pop()
+    s = '/'.join(parts)
+    return T + '/' + s if start is None else s
+
+
+def _shaped_store_case(rng):
+    psp = rng.choice([0.0, 0.0, 0.4])
+    comp = lambda: _component(rng, rng.random() < psp, tail_ok=False).lstrip() or 'k'        # noqa
+    fs = _Fs(rng)
+    H = T + '/' + '/'.join(comp() for _ in range(rng.choice([1, 2, 2])))
+    W = T + '/' + comp()
+    if W == H or H.startswith(W + '/'):
+        W += 'w'
+    fs.place(H, 'dir')
+    fs.place(W, 'dir')
+    # ~/.ndn: a real directory, or a link into a checkout somewhere else
+    if rng.random() < 0.35:
+        C = T + '/' + rng.choice(['dotfiles', 'etc', 'cfg']) + '/' + comp()
+        fs.place(C, 'dir')
+        fs.link(H, '.ndn', C)
+    else:
+        C = H + '/.ndn'
+    home_s = _spell(rng, fs, None, H, tail=False) if rng.random() < 0.5 else H
+    cwd_s = _spell(rng, fs, None, W) if rng.random() < 0.25 else W
+    confdir_s = home_s + '/.ndn'
+    case = {'op': 'store', 'home': home_s, 'cwd': cwd_s}
+
+    def near(base):
+        """a real directory under, beside or away from `base`"""
+        r = rng.random()
+        rel = '/'.join(comp() for _ in range(rng.choice([1, 1, 2])))
+        if r < 0.4:
+            return base + '/' + rel
+        if r < 0.7 and base != T and posixpath.dirname(base) != T:
+            return posixpath.dirname(base) + '/' + rel
+        return T + '/' + rel
+
+    def decoy(abs_spelling, goal, kind):
+        """a look-alike store where the textual clean-up of the spelling ends up"""
+        d = _fs_resolve(fs.links, posixpath.normpath(abs_spelling))
+        if d and d != goal and d != T and rng.random() < 0.8:
+            fs.place(d, kind)
+
+    def setting(key):
+        scheme = rng.choice(['pib-sqlite3'] * 14 + ['pib-memory', 'x'] if key == 'pib' else ['tpm-file'] * 14 + ['tpm-memory', 'y'])
+        kind = key if rng.random() < 0.9 else 'dir'
+        via = None
+        if rng.random() < 0.15:      # the store's own files are links to files kept elsewhere
+            via = [T + '/blobs/' + fs.fresh('b'), rng.choice(['abs', 'rel'])]
+        r = rng.random()
+        if r < 0.05:                 # a link that leads nowhere: the location does not exist
+            name = fs.fresh('gone')
+            fs.links.append([W + '/' + name, rng.choice([T + '/nowhere', 'nowhere/x', name])])
+            return scheme + ':' + rng.choice([W + '/' + name, name])
+        if r < 0.4:
+            P = near(T)
+            loc = _spell(rng, fs, None, P)
+            full = loc
+        elif r < 0.8:
+            P = near(C)
+            loc = _spell(rng, fs, C, P) if P != C else 'k'
+            full = confdir_s + '/' + loc
+        else:
+            P = near(W)
+            loc = _spell(rng, fs, W, P) if P != W else 'k'
+            full = cwd_s + '/' + loc
+        if ':' in loc:
+            return scheme
+        if rng.random() < 0.9:
+            fs.place(P, kind, via)
+        decoy(full, P, kind)
+        return scheme + ':' + loc
+
+    env = {k: None for k in ENVKEYS}
+    lines = None
+    if rng.random() < 0.75:
+        lines = []
+        keys = [k for k in ENVKEYS if rng.random() < 0.8]
+        rng.shuffle(keys)
+        for k in keys:
+            lines.append(['kv', k, rng.choice(TRANSPORTS) if k == 'transport' else setting(k), rng.randrange(4)])
+        if rng.random() < 0.25:      # client.conf itself is a link to a file kept elsewhere
+            F = T + '/' + rng.choice(['dotfiles', 'share']) + '/' + fs.fresh('conf')
+            case['conf_link'] = [F, fs.target(C, F)]
+            for l in lines:          # ... and a look-alike store relative to where that file really is
+                if l[1] != 'transport' and ':' in l[2] and not l[2].split(':')[1].startswith(T):
+                    decoy(posixpath.dirname(F) + '/' + l[2].split(':')[1], None, l[1])
+    for k in ENVKEYS:
+        if rng.random() < 0.3:
+            env[k] = rng.choice(TRANSPORTS) if k == 'transport' else setting(k)
+    if lines is not None or rng.random() < 0.8:
+        fs.place(C, 'pib' if rng.random() < 0.75 else 'dir')
+        if rng.random() < 0.8:
+            fs.place(C + '/ndnsec-key-file', 'tpm')
+        decoy(confdir_s, C, 'pib')
+        decoy(confdir_s + '/ndnsec-key-file', C + '/ndnsec-key-file', 'tpm')
+    if rng.random() < 0.3:           # the application changes its working directory between the steps
+        other = [W, H, T + '/' + fs.fresh('wd')]
+        ch = [rng.choice(other) if rng.random() < 0.6 else None for _ in range(2)]
+        for d in ch:
+            if d:
+                fs.place(d, 'dir')
+        if any(ch):
+            case['chdir'] = ch
+    rng.shuffle(fs.dirs)
+    case.update(conf=lines, env=env, dirs=fs.dirs, links=fs.links)
+    return case
+
+
+def _targeted_shapes():
+    """the shapes one at a time, for every source of a location: a link BEFORE '..' (absolute / relative target / chain),
+    the store itself a link, ~/.ndn a link, HOME through a link, client.conf a link to a file, the store's files links, a
+    working directory entered through a link, plain '.', '//' and 'dir/..'; each also with the working directory changed
+    after read_client_conf / after default_keychain.  A look-alike store stands where the textual clean-up ends up"""
+    none = {k: None for k in ENVKEYS}
+    H, W = T + '/home/u', T + '/cwd'
+    dflt = [[H + '/.ndn', 'pib', 'p9'], [H + '/.ndn/ndnsec-key-file', 'tpm', 't9']]
+    stores = lambda real, fake: [[real, 'pib', 'p0'], [real + '/t', 'tpm', 't0'], [fake, 'pib', 'p1'], [fake + '/t', 'tpm', 't1']]     # noqa
+    kv = lambda loc: [['kv', 'pib', 'pib-sqlite3:' + loc, 0], ['kv', 'tpm', 'tpm-file:' + loc + '/t', 1]]     # noqa
+    ev = lambda loc: {'transport': None, 'pib': 'pib-sqlite3:' + loc, 'tpm': 'tpm-file:' + loc + '/t'}     # noqa
+    out = []
+    for links in ([[T + '/link', T + '/vault/sub']], [[T + '/link', 'vault/sub']],
+                  [[T + '/l2', 'vault/sub'], [T + '/link', 'l2']], [[T + '/.m/l2', T + '/vault/sub'], [T + '/link', '.m/l2']]):
+        base = {'op': 'store', 'home': H, 'cwd': W, 'links': links,
+                'dirs': stores(T + '/vault/keys', T + '/keys') + dflt + [[T + '/vault/sub', 'dir', ''], [W, 'dir', '']]}
+        for sp in (T + '/link/../keys', T + '/link/.././keys', T + '//link/..//keys')[:3 if len(out) == 0 else 1]:
+            out.append(dict(base, env=none, conf=kv(sp)))
+            out.append(dict(base, env=ev(sp), conf=kv(T + '/keys')))
+        out.append(dict(base, env=ev(sp), conf=None))
+    # ~/.ndn is a link; locations relative to the file, and the default location
+    for tgt in (T + '/dotfiles/ndn', '../../dotfiles/ndn'):
+        base = {'op': 'store', 'home': H, 'cwd': W, 'links': [[H + '/.ndn', tgt]], 'env': none,
+                'dirs': stores(T + '/dotfiles/ndn-keys', H + '/ndn-keys') + [[T + '/dotfiles/ndn', 'pib', 'p9'],
+                                                                             [T + '/dotfiles/ndn/ndnsec-key-file', 'tpm', 't9']]}
+        out.append(dict(base, conf=kv('../ndn-keys')))
+        out.append(dict(base, conf=kv('./../ndn-keys/')[:1] + kv('../ndn-keys')[1:]))
+        out.append(dict(base, conf=[['kv', 'transport', 'tcp://h:1', 0]]))
+        out.append(dict(base, conf=None))
+    # HOME through a link followed by '..'
+    base = {'op': 'store', 'home': T + '/hl/../u2', 'cwd': W, 'links': [[T + '/hl', 'homes/x/y']], 'env': none,
+            'dirs': [[T + '/homes/x/y', 'dir', ''], [T + '/homes/x/u2/.ndn', 'pib', 'p0'], [T + '/homes/x/u2/.ndn/ndnsec-key-file', 'tpm', 't0'],
+                     [T + '/u2/.ndn', 'pib', 'p1'], [T + '/u2/.ndn/ndnsec-key-file', 'tpm', 't1']] + stores(T + '/homes/x/u2/.ndn/k', T + '/u2/.ndn/k')}
+    out += [dict(base, conf=None), dict(base, conf=[['kv', 'transport', 'tcp://h:1', 0]]), dict(base, conf=kv('k'))]
+    # client.conf is a link to a file kept elsewhere: relative locations are relative to the directory of the file found
+    for tgt in (T + '/dotfiles/client.conf', '../../../dotfiles/client.conf'):
+        out.append({'op': 'store', 'home': H, 'cwd': W, 'env': none, 'conf': kv('keys'), 'conf_link': [T + '/dotfiles/client.conf', tgt],
+                    'dirs': stores(H + '/.ndn/keys', T + '/dotfiles/keys') + dflt})
+    # the working directory was entered through a link; a location relative to it
+    base = {'op': 'store', 'home': H, 'cwd': T + '/cwdlink', 'links': [[T + '/cwdlink', 'vault/sub']],
+            'dirs': stores(T + '/vault/keys', T + '/keys') + dflt + [[T + '/vault/sub', 'dir', '']]}
+    out += [dict(base, env=ev('../keys'), conf=None), dict(base, env=none, conf=kv('../keys'))]
+    base = {'op': 'store', 'home': H, 'cwd': W, 'links': [[W + '/lk', '../vault/sub']],
+            'dirs': stores(T + '/vault/keys', W + '/keys') + dflt + [[T + '/vault/sub', 'dir', '']]}
+    out += [dict(base, env=ev('lk/../keys'), conf=None), dict(base, env=none, conf=kv('lk/../keys'))]
+    # the store itself is a link / its files are links / a link to nowhere
+    base = {'op': 'store', 'home': H, 'cwd': W, 'links': [[T + '/cur', 'stores/v2'], [T + '/curt', T + '/stores/v2/t'], [T + '/gone', 'nowhere']],
+            'dirs': [[T + '/stores/v2', 'pib', 'p0'], [T + '/stores/v2/t', 'tpm', 't0'], [T + '/stores/v1', 'pib', 'p1'], [T + '/stores/v1/t', 'tpm', 't1']] + dflt}
+    out.append(dict(base, env=none, conf=[['kv', 'pib', 'pib-sqlite3:' + T + '/cur', 0], ['kv', 'tpm', 'tpm-file:' + T + '/curt', 1]]))
+    out.append(dict(base, env=ev(T + '/cur'), conf=None))
+    out.append(dict(base, env=none, conf=kv(T + '/gone')))
+    for how in ('abs', 'rel'):
+        out.append({'op': 'store', 'home': H, 'cwd': W, 'env': none, 'conf': kv(T + '/srv/keys'),
+                    'dirs': [[T + '/srv/keys', 'pib', 'p0', T + '/blobs/a', how], [T + '/srv/keys/t', 'tpm', 't0', T + '/blobs/b', how]] + dflt})
+    # no link at all: '.', '//', 'dir/..', trailing slash
+    base = {'op': 'store', 'home': H, 'cwd': W, 'dirs': stores(T + '/srv/keys', T + '/srv/d/keys') + dflt + [[T + '/srv/d', 'dir', '']]}
+    for sp in (T + '/srv/d/../keys', T + '/srv/./keys', T + '/srv//keys', T + '/srv/keys/.'):
+        out.append(dict(base, env=none, conf=kv(sp)))
+    for i, c in enumerate(out):
+        yield c
+        # the working directory changes while the configured names are absolute or relative to the file
+        if c['conf'] is not None and all(v is None for v in c['env'].values()):
+            ch = [[T + '/elsewhere', None], [None, T + '/elsewhere'], [T + '/elsewhere', H]][i % 3]
+            yield dict(c, chdir=ch, dirs=c['dirs'] + [[T + '/elsewhere', 'dir', '']])
+
 
 def cases(rng, tier):
     yield from _targeted_parse()
@@ -897,6 +1212,9 @@ def cases(rng, tier):
     dollar = bool(os.environ.get('VERIF_C20_DOLLAR'))      # HOME holding the text '$HOME': see the finding in RULE
     for i in range(120 if tier == 'quick' else 8000):
         yield _store_case(rng, dollar and i % 4 == 0)
+    yield from _targeted_shapes()
+    for i in range(80 if tier == 'quick' else 8000):
+        yield _shaped_store_case(rng)
 
 
 def shrink(case):
@@ -917,9 +1235,18 @@ def shrink(case):
         for k in ENVKEYS:
             if case['env'][k] is not None:
                 yield dict(case, env=dict(case['env'], **{k: None}))
+        for k in ('chdir', 'conf_link', 'links'):
+            if case.get(k):
+                yield {kk: v for kk, v in case.items() if kk != k}
+        ls = case.get('links') or []
+        for i in range(len(ls)):
+            yield dict(case, links=ls[:i] + ls[i + 1:])
         ds = case['dirs']
         for i in range(len(ds)):
             yield dict(case, dirs=ds[:i] + ds[i + 1:])
+        for i in range(len(ds)):
+            if len(ds[i]) > 3:
+                yield dict(case, dirs=ds[:i] + [ds[i][:3]] + ds[i + 1:])
         if case['conf'] is not None:
             yield dict(case, conf=None)
             ls = case['conf']
@@ -1052,7 +1379,13 @@ def _store_settings(case):
 
 def _run_store(case):
     import tempfile, shutil
-    root = os.path.realpath(tempfile.mkdtemp(prefix='c20fs', dir=_scratch_parent()))
+    # the scratch directory lies DEEP inside a private one: a '..' too many in a spelling (a relative name read against another
+    # directory than it was made for, a shrunk layout that lost a link) ends in an empty private directory; a layout with a
+    # name that leads out of the private directory all the same is not run
+    top = os.path.realpath(tempfile.mkdtemp(prefix='c20fs', dir=_scratch_parent()))
+    root = top + '/0/1/2/3/4/5/6/7/8/9'
+    os.makedirs(root)
+    private = lambda q: os.path.realpath(q).startswith(top + '/')        # noqa
     real = lambda q: q.replace(T, root)        # noqa
     canon = lambda q: q.replace(root, T) if isinstance(q, str) else q        # noqa
     saved_env = {k: os.environ.get(k) for k in ['HOME'] + ['NDN_CLIENT_' + k.upper() for k in ENVKEYS]}
@@ -1060,27 +1393,44 @@ def _run_store(case):
     obs = {'op': 'store', 'raised': None, 'result': None, 'kc_raised': None, 'kc': None, 'skip': None}
     try:
         try:
-            os.makedirs(real(case['home']))
-            os.makedirs(real(case['cwd']), exist_ok=True)
             where = {}
-            for path, kind, label in case['dirs']:
+            for path, kind, label, *via in case['dirs']:
                 os.makedirs(real(path), exist_ok=True)
                 if kind != 'dir':
                     for fn, data in _template(kind, label).items():
-                        with open(os.path.join(real(path), fn), 'wb') as f:
+                        dst = os.path.join(real(path), fn)
+                        if via:          # the store's file is a symbolic link to a file kept in another directory
+                            os.makedirs(real(via[0]), exist_ok=True)
+                            blob = os.path.join(real(via[0]), fn)
+                            os.symlink(blob if via[1] == 'abs' else os.path.relpath(blob, real(path)), dst)
+                            dst = blob
+                        with open(dst, 'wb') as f:
                             f.write(data)
-                where[os.path.normpath(real(path))] = [kind, label]
+                where[os.path.normpath(real(path))] = [kind, label]      # (no link exists yet: the path is the directory)
+            for lpath, target in case.get('links', []):      # in order: a later link may be spelled through an earlier one
+                os.makedirs(os.path.dirname(real(lpath)), exist_ok=True)
+                os.symlink(real(target), real(lpath))
+            for d in [case['home'], case['cwd']] + [d for d in case.get('chdir') or [] if d]:
+                if not private(real(d)):
+                    raise OSError('leads out of the scratch directory')
+                if not os.path.isdir(real(d)):
+                    os.makedirs(real(d))
             if case['conf'] is not None:
                 os.makedirs(real(case['home']) + '/.ndn', exist_ok=True)
                 text = render([[real(x) if isinstance(x, str) else x for x in l] for l in case['conf']],
                               '\r\n' if case.get('eol') == 'crlf' else '\n')
-                with open(real(case['home']) + '/.ndn/client.conf', 'w', newline='') as f:
+                conf_at = real(case['home']) + '/.ndn/client.conf'
+                if case.get('conf_link'):                     # client.conf is a symbolic link to a file kept elsewhere
+                    os.makedirs(os.path.dirname(real(case['conf_link'][0])), exist_ok=True)
+                    os.symlink(real(case['conf_link'][1]), conf_at)
+                    conf_at = real(case['conf_link'][0])
+                with open(conf_at, 'w', newline='') as f:
                     f.write(text)
         except (OSError, UnicodeError) as e:     # a name this file system / locale cannot hold: no case
             obs['skip'] = type(e).__name__
             return obs
-        cwd = real(case['cwd'])
-        os.chdir(cwd)
+        os.chdir(real(case['cwd']))
+        cwd = os.getcwd()
         os.environ['HOME'] = real(case['home'])
         for k in ENVKEYS:
             os.environ.pop('NDN_CLIENT_' + k.upper(), None)
@@ -1091,12 +1441,18 @@ def _run_store(case):
         for k, st in _store_settings(case).items():
             for c in st.get('cands', []):
                 q = real(c)
-                at[c] = [os.path.exists(q)] + where.get(os.path.normpath(os.path.join(cwd, q)), ['', ''])     # (no symlinks in the scratch directory)
+                # whether the string names something, and WHICH directory it names, as the operating system resolves it now
+                rp = os.path.realpath(q)
+                if not rp.startswith(top + '/'):
+                    obs['skip'] = 'leads out of the scratch directory'
+                    return obs
+                at[c] = [os.path.exists(q)] + where.get(rp, ['', '']) + [canon(rp)]
         obs['at'] = at
+        obs['conf_visible'] = os.path.isfile(real(case['home']) + '/.ndn/client.conf')
         obs['other_conf'] = [q for q in ('/usr/local/etc/ndn/client.conf', '/opt/local/etc/ndn/client.conf', '/etc/ndn/client.conf')
                              if os.path.exists(q)]
         obs['sockets'] = [q for q in ('/run/nfd/nfd.sock', '/run/nfd.sock') if os.path.exists(q)]
-        before = _snapshot(root)
+        before = _snapshot(top)
         import ndn.client_conf as cc
         from ndn.encoding import Name
         try:
@@ -1106,14 +1462,19 @@ def _run_store(case):
             obs['raised'] = _exc(e)
             return obs
         kc = None
+        chdir = [real(d) if d else None for d in (case.get('chdir') or [None, None])]
         import sys
         hook, sys.unraisablehook = sys.unraisablehook, lambda *a: None     # (a keychain that failed to open complains in __del__)
         try:
+            if chdir[0]:
+                os.chdir(chdir[0])
             kc = cc.default_keychain(res['pib'], res['tpm'])
-            labels = sorted({l for _, kd, l in case['dirs'] if kd == 'tpm'})
+            if chdir[1]:
+                os.chdir(chdir[1])
+            labels = sorted({d[2] for d in case['dirs'] if d[1] == 'tpm'})
             seen = [l for l in labels if kc.tpm.key_exist(Name.from_str('/tpm/' + l + '/KEY/k'))]
             ids = sorted(Name.to_str(n) for n in kc)
-            mid = _snapshot(root)
+            mid = _snapshot(top)
             kc.tpm.save_key(Name.from_str('/tpm/probe/KEY/k'), b'probe')
             obs['kc'] = {'identities': ids, 'keys_seen': seen}
         except Exception as e:     # noqa
@@ -1126,7 +1487,7 @@ def _run_store(case):
                     pass
             kc = None
             sys.unraisablehook = hook
-        after = _snapshot(root)
+        after = _snapshot(top)
         if obs['kc'] is not None:
             obs['kc']['changed_by_open'] = sorted(canon(q) for q in set(before) | set(mid) if before.get(q) != mid.get(q))
             obs['kc']['changed_by_save'] = sorted(canon(q) for q in set(after) | set(mid) if after.get(q) != mid.get(q))
@@ -1140,13 +1501,15 @@ def _run_store(case):
                 os.environ.pop(k, None)
             else:
                 os.environ[k] = v
-        shutil.rmtree(root, ignore_errors=True)
+        shutil.rmtree(top, ignore_errors=True)
 
 
 def _oracle_store(case, impl):
     if impl['skip']:
         return None
     st = _store_settings(case)
+    if (case['conf'] is not None) != impl.get('conf_visible', case['conf'] is not None):
+        return None                                        # (a shrunk layout whose client.conf is no longer reachable)
     if case['conf'] is None and impl['other_conf']:
         return None                                        # a system-wide file of this machine is in force: not this case's doing
     if case['conf'] is not None:
@@ -1177,10 +1540,12 @@ def _oracle_store(case, impl):
     # the stores behind the strings: both settings of a supported kind, both locations exist and hold what was put there
     if st['pib']['scheme'] != 'pib-sqlite3' or st['tpm']['scheme'] != 'tpm-file' or None in want.values():
         return None
-    pk, pl = impl['at'][want['pib']][1:]
-    tk, tl = impl['at'][want['tpm']][1:]
+    pk, pl = impl['at'][want['pib']][1:3]
+    tk, tl = impl['at'][want['tpm']][1:3]
     if pk != 'pib':
         return None                                        # the configured location holds no public-information store
+    if any(case.get('chdir') or []) and not all(want[k].startswith(T) for k in want):
+        return None            # a name relative to the working directory, and the working directory changed: the statement names no reading
     if impl['kc_raised']:
         return (f"the configured public-information store {want['pib']!r} and key store {want['tpm']!r} exist but "
                 f"could not be opened: {impl['kc_raised']}")
@@ -1190,9 +1555,13 @@ def _oracle_store(case, impl):
                 f"holds {kc['identities']}")
     # nothing but the configured stores may have been touched
     inside = lambda q, base: q == base or q.startswith(base.rstrip('/') + '/')        # noqa
-    norm = {k: posixpath.normpath(want[k] if want[k].startswith(T) else posixpath.join(case['cwd'], want[k])) for k in want}
+    # (the directory each configured string denotes: as the operating system resolved it before the library ran; a store
+    # whose files are links to files kept elsewhere reaches into that directory too)
+    norm = {k: (impl['at'][want[k]][3] if len(impl['at'][want[k]]) > 3 else
+                posixpath.normpath(want[k] if want[k].startswith(T) else posixpath.join(case['cwd'], want[k]))) for k in want}
+    blobs = {k: [d[3] for d in case['dirs'] if d[0] == norm[k] and len(d) > 3] for k in want}
     for q in kc['changed_by_open']:
-        if not inside(q, norm['pib']):
+        if not inside(q, norm['pib']) and not any(inside(q, b) for b in blobs['pib']):
             return f"opening the store configured at {want['pib']!r} changed {q!r}"
     if tk == 'tpm' and kc['keys_seen'] != [tl]:
         return f"key store {want['tpm']!r} configured (it holds the key of {tl}), the key store in use sees the keys of {kc['keys_seen']}"
@@ -1543,12 +1912,22 @@ def tags(case, impl):
             t.append(f"store:{k}:{st[k]['src']}:{how}")
             if i is not None:
                 q = st[k]['cands'][i]
+                a = impl['at'][q]
+                if len(a) > 3:
+                    lexical = posixpath.normpath(q if q.startswith(T) else posixpath.join(case['cwd'], q))
+                    t.append(f'store:{k}-path:' + ('textual-cleanup-names-another-directory' if lexical != a[3] else
+                                                   'not-normalised' if lexical != q.rstrip('/') else 'plain'))
                 for name, pat in (('%HH', r'%[0-9A-Fa-f]{2}'), ('?', r'\?'), ('#', '#'), ('blank', r'\s'), ('non-ascii', r'[^\x00-\x7f]'),
                                   ('$', r'\$'), ('~', '~'), ('=;', '[=;]'), ('quote-glob', r'''['"*\[\]{}\\|<>^`()!&]'''), (':', ':'),
                                   ('trailing-dot', r'\.(/|$)')):
                     if re.search(pat, q[len(T):] if q.startswith(T) else q):
                         t.append(f'store:{k}-path-has:{name}')
         t.append('store:keychain:' + ('opened' if impl['kc'] else 'raised' if impl['kc_raised'] else 'not-reached'))
+        for name, on in (('links', case.get('links')), ('client.conf-is-link', case.get('conf_link')), ('chdir', any(case.get('chdir') or [])),
+                         ('store-files-are-links', any(len(d) > 3 for d in case['dirs'])),
+                         ('dot-ndn-is-link', any(l[0].endswith('/.ndn') for l in case.get('links') or []))):
+            if on:
+                t.append('store:fs:' + name)
     elif case['op'] == 'parse':
         if not impl['raised']:
             t.append('parse-keys:%d' % min(len(impl['got']), 3))
